@@ -177,27 +177,21 @@ def insertByKey (k : Int) (v : Val) : List (Int × Val) → List (Int × Val)
 /-- stable sort by integer keys -/
 def sortByKeys (kvs : List (Int × Val)) : List Val := (kvs.foldl (fun acc kv => insertByKey kv.1 kv.2 acc) []).map (·.2)
 
-/-- pop the parameters of a named function: the function's initial stack (in the order collected) and its locals -/
-def bindParams : List Str → RSt → R (List Val × List (Str × Val) × RSt)
-  | [], σ => .ok ([], [], σ)
-  | p :: ps, σ =>
+/-- pop the parameters of a named function, left to right: a number pops that many values onto the function's initial
+    stack (`acc`, in the order popped), a name pops one value into a local variable (`loc`), `*` pops a count first -/
+def bindParams : List Str → List Val → List (Str × Val) → RSt → R (List Val × List (Str × Val) × RSt)
+  | [], acc, loc, σ => .ok (acc, loc, σ)
+  | p :: ps, acc, loc, σ =>
       if p ≠ [] ∧ p.all isDigit then
-        let (xs, σ1) := σ.popK (natOfDigits p)
-        do let (more, locals, σ2) ← bindParams ps σ1
-           .ok (xs ++ more, locals, σ2)
+        bindParams ps (acc ++ (σ.popK (natOfDigits p)).1) loc (σ.popK (natOfDigits p)).2
       else if p = [cStar] then
-        let (k, σ1) := σ.pop1
-        (match k with
+        (match σ.pop1.1 with
          | .int i => do
              let kk ← toNatArity i
-             let (xs, σ2) := σ1.popK kk
-             let (more, locals, σ3) ← bindParams ps σ2
-             .ok (xs ++ more, locals, σ3)
+             bindParams ps (acc ++ (σ.pop1.2.popK kk).1) loc (σ.pop1.2.popK kk).2
          | _ => .error (.unmodelled "variadic count that is not a number"))
       else
-        let (x, σ1) := σ.pop1
-        do let (more, locals, σ2) ← bindParams ps σ1
-           .ok (more, setKV (p.filter (fun c => isLetter c || isDigit c)) x locals, σ2)
+        bindParams ps acc (setKV (p.filter (fun c => isLetter c || isDigit c)) σ.pop1.1 loc) σ.pop1.2
 
 /-- the arity a lambda is written with (`λ2|…;`), 1 when it has no header -/
 def declArity (ar : Option Nat) : Int :=
@@ -235,6 +229,12 @@ def RSt.leaveFn (σ : RSt) : R RSt :=
   match σ.ctxVals, σ.inputs, σ.stacks with
   | _ :: cv, _ :: ins, _ :: st => .ok { σ with ctxVals := cv, inputs := ins, stacks := st }
   | _, _, _ => .error (.raised "IndexError")
+
+/-- enter a named function: its stack is the collected parameters, the named ones are its variables -/
+def enterFn (caller σ1 : RSt) (parameters : List Val) (locals : List (Str × Val)) : RSt :=
+  { σ1 with stack := parameters.reverse, params := locals, shadow := [], depth := caller.depth + 1,
+            ctxVals := .list parameters :: σ1.ctxVals, inputs := (parameters.reverse, 0) :: σ1.inputs,
+            stacks := .list parameters :: σ1.stacks }
 
 /-- back in the caller's frame -/
 def restoreFrame (caller σ : RSt) : RSt :=
@@ -525,11 +525,8 @@ def callNamed (cfg : Cfg) : Nat → Str → RSt → R (Sig × RSt)
       | some (ps, body) =>
         if (lookupKV name σ.params).isSome then .error (.unmodelled "parameter named like the function") else
         do
-          let (parameters, locals, σ1) ← bindParams ps σ
-          let σ2 : RSt := { σ1 with stack := parameters.reverse, params := locals, shadow := [], depth := σ.depth + 1,
-                                    ctxVals := .list parameters :: σ1.ctxVals, inputs := (parameters.reverse, 0) :: σ1.inputs,
-                                    stacks := .list parameters :: σ1.stacks }
-          let (sg, σ3) ← execL cfg n body σ2
+          let (parameters, locals, σ1) ← bindParams ps [] [] σ
+          let (sg, σ3) ← execL cfg n body (enterFn σ σ1 parameters locals)
           match sg with
           | .normal => do
               let σ4 ← σ3.leaveFn
